@@ -25,13 +25,20 @@ def ind(lines: List[str], n: int = 1) -> List[str]:
 
 
 class Gen:
-    def __init__(self, kind: str):
+    def __init__(self, kind: str, probes: bool = False):
         self.kind = kind
         self.next_id = 1
         self.yn = 0
+        self.probes = probes
 
     def S(self) -> List[str]:
-        """A suspension point appropriate to the function kind."""
+        """A suspension point appropriate to the function kind (preceded by a probe call
+        `E.p()` in the running-frame corpus; a plain function has only the probe)."""
+        if self.kind == "func":
+            return ["E.p()"]
+        return (["E.p()"] if self.probes else []) + self._susp()
+
+    def _susp(self) -> List[str]:
         self.yn += 1
         if self.kind == "gen":
             return [f"yield {self.yn}"]
@@ -57,14 +64,14 @@ class Gen:
         return [head] + ind(body)
 
 
-def build(kind: str, ctx: str, is_async: bool, nitems: int, tail: str, cont: str) -> Optional[str]:
+def build(kind: str, ctx: str, is_async: bool, nitems: int, tail: str, cont: str, probes: bool = False) -> Optional[str]:
     """Returns the source of `prog`, or None if the combination is not valid Python
     (break outside loop, `return value` in an async generator, async with in a generator)."""
-    if is_async and kind == "gen":
+    if is_async and kind in ("gen", "func"):
         return None
-    if ctx == "in_async_with" and kind == "gen":
+    if ctx == "in_async_with" and kind in ("gen", "func"):
         return None
-    if tail == "nested_async_with" and kind == "gen":
+    if tail == "nested_async_with" and kind in ("gen", "func"):
         return None
     in_loop = ctx in ("for", "while", "for_else")
     if tail in ("if_break", "if_continue") and not in_loop:
@@ -72,7 +79,7 @@ def build(kind: str, ctx: str, is_async: bool, nitems: int, tail: str, cont: str
     if kind == "agen" and tail in ("if_return_const", "if_return_value", "if_else_return", "return_in_try_finally"):
         # async generators cannot return a value; the bare-return shape is covered by if_return_none
         return None
-    g = Gen(kind)
+    g = Gen(kind, probes)
     S = g.S
     swallow = tail == "swallow"
     if tail == "plain":
@@ -141,7 +148,7 @@ def build(kind: str, ctx: str, is_async: bool, nitems: int, tail: str, cont: str
     else:
         raise AssertionError(ctx)
     lines = lines + S()
-    head = "def prog(E):" if kind == "gen" else "async def prog(E):"
+    head = "def prog(E):" if kind in ("gen", "func") else "async def prog(E):"
     src = "\n".join([head] + ind(lines)) + "\n"
     try:
         compile(src, "<prog>", "exec")
@@ -169,3 +176,24 @@ def corpus(tier: str, seed: int = 0) -> Iterator[Tuple[Dict[str, Any], str]]:
                 src = build(kind, ctx, is_async, nitems, tail, cont)
                 if src:
                     yield ({"kind": kind, "ctx": ctx, "async": is_async, "nitems": nitems, "tail": tail, "cont": cont}, src)
+
+
+def corpus_running(tier: str, seed: int = 0) -> Iterator[Tuple[Dict[str, Any], str]]:
+    """Running-frame corpus (C02): the same grammar with probe calls, plus plain functions."""
+    kinds = ["func", "gen", "coro", "agen"]
+    if tier == "thorough":
+        for kind, ctx, is_async, nitems, tail, cont in itertools.product(kinds, CONTEXTS, (False, True), (1, 2), TAILS, CONTS):
+            src = build(kind, ctx, is_async, nitems, tail, cont, probes=True)
+            if src:
+                yield ({"kind": kind, "ctx": ctx, "async": is_async, "nitems": nitems, "tail": tail, "cont": cont, "probes": True}, src)
+        return
+    r = seed
+    for ci, ctx in enumerate(CONTEXTS):
+        for ti, tail in enumerate(TAILS):
+            variants = [("func", False), ("gen", False), ("coro", True), ("agen", True), ("coro", False)]
+            for vi, (kind, is_async) in enumerate(variants):
+                nitems = 1 + ((ci + ti + vi + r) % 2)
+                cont = CONTS[(ci + 2 * ti + vi + r) % 3]
+                src = build(kind, ctx, is_async, nitems, tail, cont, probes=True)
+                if src:
+                    yield ({"kind": kind, "ctx": ctx, "async": is_async, "nitems": nitems, "tail": tail, "cont": cont, "probes": True}, src)
